@@ -196,6 +196,10 @@ class StmtMixin:
             t = self.c.types.get(s.targets[0].id)
             if t is not None and t.kind in ('set', 'list'):
                 s.value._elem_hint = t.args[0]
+        if isinstance(s.value, ast.Dict) and len(s.targets) == 1 and isinstance(s.targets[0], ast.Name):
+            t = self.c.types.get(s.targets[0].id)
+            if t is not None and t.kind == 'dict':
+                s.value._dict_hint = t
         if isinstance(s.value, ast.Dict) and isinstance(s.targets[0], ast.Attribute):
             ft = self.static_attr_type(s.targets[0], st)
             if ft is not None and ft.kind == 'dict':
